@@ -12,5 +12,20 @@ CHECKS = {
                  "model's +,-,*,** denote the MvPolynomial operations (incl. the cmultiply buffer-loop invariant); the "
                  "compiled model is run against the real operators on generated expression trees.",
          "note": BASE_NOTE},
+ "C14": {"ref": "5/C14", "technique": "Lean 4 proof by induction over option programs + exhaustive bounded history correspondence",
+         "text": "with_restores is proved for every body (any nesting depth, set_options, exceptions, mutation of returned "
+                 "dicts) and both exit paths; set_unknown_atomic/with_unknown/set_known/get_detached/defaults_constant "
+                 "complete the statement; all flat histories up to length 4 (quick) / 5 (thorough) over 13 events are "
+                 "run against the real `with`/exceptions and compared with the model after every event.",
+         "note": BASE_NOTE},
+ "C18": {"ref": "5/C18", "technique": "Lean 4 proof (stable two-pass sort, index-set characterisation) + table obligation on the argsort kind + exhaustive/brute-force correspondence",
+         "text": "glexsort_perm/glexsort_sorted hold for every key matrix (two stable passes, own insertion sort proved "
+                 "stable); glexsort_source_is_stable is re-checked against utils/glexsort.py every run; glexindex_mem_iff/"
+                 "nodup/sorted characterise the index set without assuming start <= stop; cross-truncation norms 0,1,inf and "
+                 "integer p are exact, fractional p is executed in binary64 (no theorem). All key matrices over {0,1,2} up "
+                 "to 3x4 (3x5 thorough) and tie-heavy random ones up to 4x400 are run against the implementation.",
+         "note": BASE_NOTE + " Fractional cross-truncation norms are only executed, not proved."},
 }
-NOT_APPLICABLE = {f"C{i:02d}": "check under construction in this session (will be claimed once built)" for i in range(2, 21)}
+CLAIMED = set(CHECKS)
+NOT_APPLICABLE = {f"C{i:02d}": "check under construction in this session (will be claimed once built)"
+                  for i in range(1, 21) if f"C{i:02d}" not in CLAIMED}
